@@ -211,7 +211,28 @@ func (s *seq) logf(f string, a ...any) {
 	s.logMu.Unlock()
 }
 
+// canonSig folds the places where one defect can surface into one signature
+// (the operation that happened to hit it stays in the detail text).
+func canonSig(sig string) string {
+	switch {
+	case strings.Contains(sig, "unexpected-error/cache-key-not-found"):
+		// multiapp's file-handle cache lets its own miss escape to the caller
+		return "multiapp.handle-cache/key-not-found-leaked"
+	case strings.Contains(sig, "unexpected-error/eof"):
+		// a node (or history chunk) that the object still refers to is gone from the log
+		if strings.HasPrefix(sig, "snapshot.") {
+			return "snapshot/node-read-eof"
+		}
+		return "tree/node-read-eof"
+	}
+	return sig
+}
+
 func (s *seq) violation(sig, detail string) {
+	if c := canonSig(sig); c != sig {
+		detail = "[" + sig + "] " + detail
+		sig = c
+	}
 	s.logMu.Lock()
 	ops := strings.Join(s.log, "\n")
 	s.logMu.Unlock()
@@ -471,6 +492,9 @@ func unexp(err error) string {
 	if errors.Is(err, cache.ErrKeyNotFound) {
 		return "unexpected-error/cache-key-not-found"
 	}
+	if errors.Is(err, io.EOF) {
+		return "unexpected-error/eof"
+	}
 	return "unexpected-error"
 }
 
@@ -483,6 +507,7 @@ func (s *seq) checkQuery(target, phase string, depth int, rd kvReader, v kvmodel
 		ph = "@" + phase
 	}
 	var opName, class, detail string
+	between := false // a time-bounded lookup answered with a version that the key never had
 	ok := s.guard(target+"."+q.String(), func() {
 		switch q.kind {
 		case 0:
@@ -539,6 +564,10 @@ func (s *seq) checkQuery(target, phase string, depth int, rd kvReader, v kvmodel
 				if _, n, _ := v.Get(q.key); rev < n {
 					shape = "older-version"
 				}
+			}
+			if class != "" && present && q.i <= q.f && err == nil && foreign(v, q.key, val, ts) {
+				between = true
+				detail += " (the pair returned is not a version of this key)"
 			}
 			s.c.Distinct(fmt.Sprintf("d%d/%s.GetBetween%s/%s/%s", depth, target, ph, shape, errClass(err)))
 		case 2:
@@ -612,9 +641,27 @@ func (s *seq) checkQuery(target, phase string, depth int, rd kvReader, v kvmodel
 	if !ok {
 		return false
 	}
-	if class != "" {
-		s.violation(fmt.Sprintf("%s.%s/%s%s", target, opName, class, ph), fmt.Sprintf("%s.%s as of ts %d: %s", target, q, v.Bound(), detail))
+	if between {
+		s.violation("between/version-of-another-key", fmt.Sprintf("[%s.%s/%s%s] %s.%s: %s", target, opName, class, ph, target, q, detail))
 		return false
+	}
+	if class != "" {
+		s.violation(fmt.Sprintf("%s.%s/%s%s", target, opName, class, ph), fmt.Sprintf("%s.%s: %s", target, q, detail))
+		return false
+	}
+	return true
+}
+
+// foreign reports whether (val, ts) is not a version of key at all in the view.
+func foreign(v kvmodel.View, key, val []byte, ts uint64) bool {
+	vs, _, st := v.History(key, 0, false, -1)
+	if st != kvmodel.HistoryOK {
+		return true
+	}
+	for _, x := range vs {
+		if x.Ts == ts && bytes.Equal(x.Value, val) {
+			return false
+		}
 	}
 	return true
 }
@@ -848,6 +895,20 @@ func (s *seq) advance(target, phase string, ss *snapState, rs *rdState, n int) b
 		s.c.Eval(1)
 		s.progress.Add(1)
 		where := fmt.Sprintf("%s %s between=[%d,%d] on %s as of ts %d, entry %d of %d", op, specString(rs.spec), rs.iTs, rs.fTs, target, ss.ts0, rs.pos, len(rs.exp))
+		// report names the mismatch; two symptoms have a name of their own whatever the place they show up in
+		report := func(class, detail string) bool {
+			sig := fmt.Sprintf("%s.%s/%s%s", target, op, class, ph)
+			switch {
+			case rs.mode == modeBetween && err == nil && len(k) > 0 && foreign(ss.frozen.Now(), k, val, ts):
+				detail = "[" + sig + "] " + detail + " (the pair returned is not a version of this key)"
+				sig = "between/version-of-another-key"
+			case rs.mode == modeHistory && rs.resets > 0 && err == nil:
+				detail = "[" + sig + "] " + detail + " (history listing after Reset)"
+				sig = "reader.reset/history-listing-not-restarted"
+			}
+			s.violation(sig, where+": "+detail)
+			return false
+		}
 		if rs.pos >= len(rs.exp) {
 			out := "end"
 			if len(rs.exp) == 0 {
@@ -855,28 +916,25 @@ func (s *seq) advance(target, phase string, ss *snapState, rs *rdState, n int) b
 			}
 			s.c.Distinct(fmt.Sprintf("d%d/%s.%s%s/%s/%s", ss.depth, target, op, ph, rs.shape, out))
 			if !errors.Is(err, tbtree.ErrNoMoreEntries) {
-				s.violation(fmt.Sprintf("%s.%s/extra-entry%s", target, op, ph), fmt.Sprintf("%s: the model has no more entries, got key=%s value=%s ts=%d hc=%d err=%v", where, hx(k), hx(val), ts, hc, err))
-				return false
+				if err != nil {
+					return report(unexp(err), err.Error())
+				}
+				return report("extra-entry", fmt.Sprintf("the model has no more entries, got key=%s value=%s ts=%d hc=%d", hx(k), hx(val), ts, hc))
 			}
 			return true
 		}
 		e := rs.exp[rs.pos]
 		switch {
 		case errors.Is(err, tbtree.ErrNoMoreEntries):
-			s.violation(fmt.Sprintf("%s.%s/missing-entry%s", target, op, ph), fmt.Sprintf("%s: reader ended, the model continues with key=%s %s@%d", where, hx(e.Key), hx(e.Value), e.Ts))
-			return false
+			return report("missing-entry", fmt.Sprintf("reader ended, the model continues with key=%s %s@%d", hx(e.Key), hx(e.Value), e.Ts))
 		case err != nil:
-			s.violation(fmt.Sprintf("%s.%s/%s%s", target, op, unexp(err), ph), fmt.Sprintf("%s: %v", where, err))
-			return false
+			return report(unexp(err), err.Error())
 		case !bytes.Equal(k, e.Key):
-			s.violation(fmt.Sprintf("%s.%s/wrong-key%s", target, op, ph), fmt.Sprintf("%s: model key=%s, got key=%s (%s@%d)", where, hx(e.Key), hx(k), hx(val), ts))
-			return false
+			return report("wrong-key", fmt.Sprintf("model key=%s, got key=%s (%s@%d)", hx(e.Key), hx(k), hx(val), ts))
 		case !bytes.Equal(val, e.Value) || ts != e.Ts:
-			s.violation(fmt.Sprintf("%s.%s/wrong-version%s", target, op, ph), fmt.Sprintf("%s: key=%s model %s@%d, got %s@%d", where, hx(k), hx(e.Value), e.Ts, hx(val), ts))
-			return false
+			return report("wrong-version", fmt.Sprintf("key=%s model %s@%d, got %s@%d", hx(k), hx(e.Value), e.Ts, hx(val), ts))
 		case hc != e.Rev:
-			s.violation(fmt.Sprintf("%s.%s/wrong-hc%s", target, op, ph), fmt.Sprintf("%s: key=%s model revision %d, got hc=%d", where, hx(k), e.Rev, hc))
-			return false
+			return report("wrong-hc", fmt.Sprintf("key=%s model revision %d, got hc=%d", hx(k), e.Rev, hc))
 		}
 		rs.pos++
 		if rs.pos == 1 || rs.pos == len(rs.exp) {
@@ -1758,6 +1816,11 @@ func (s *seq) run(nops int) {
 	s.m = kvmodel.New()
 	os.RemoveAll(s.dir)
 	s.logf("sequence %d cfg=%+v pool=%d", s.id, s.cf, len(s.pool))
+	if s.cf.FileSize < 1024 {
+		// every node / history chunk read or written crosses several files: such
+		// sequences are kept short (a count, like every other bound here)
+		nops /= 4
+	}
 	if !s.open("") {
 		return
 	}
@@ -1875,7 +1938,7 @@ func Run(c *fw.Ctx) {
 			defer pprof.StopCPUProfile()
 		}
 	}
-	nseq := c.N(40, 1000)
+	nseq := c.N(40, 300)
 	nops := c.N(400, 1500)
 	// diagnostics: VERIF_C10_SEQ=n runs only sequence n, VERIF_C10_MAXSEQ=n only the first n
 	// (the sequences themselves are unchanged: each one draws from its own PRNG stream)
